@@ -42,7 +42,9 @@ TypedValue evaluate_ternary_typed(
         last_typed_result = result;
         return result;
     } else if (selected_type.type_info == TYPE_STRING &&
-               selected_node->node_type == ASTNodeType::AST_STRING_LITERAL) {
+               (selected_node->node_type == ASTNodeType::AST_STRING_LITERAL ||
+                selected_node->node_type ==
+                    ASTNodeType::AST_INTERPOLATED_STRING)) {
         TypedValue result = evaluate_typed_expression_callback(selected_node);
         last_typed_result = result;
         return result;
